@@ -736,7 +736,120 @@ def sess_malformed(w):
     HH.run_session(w, HH.encode_request(w, [kdrv.get('1')], version=(1, 2))[:8] + b'', label='header only')
 
 
+@atom(layer='session')
+def sess_structured_failures(w):
+    """Canary-carrying requests that fail to decode or to validate at every nesting level: the TTLV tree of a good
+    request is edited (type of an item changed - including Structure-typed key material under each key format -,
+    items after the secret dropped, duplicated or ill-typed) and re-encoded with consistent lengths."""
+    import copy
+    pw = w.can.new('password', 20, text=True).decode()
+    auth = HH.password_auth('alice', pw)
+    K = E.KeyFormatType
+    key = w.can.new('key-material:structured-request', 32)
+    sd = w.can.new('secret-data', 24)
+    pt, iv, salt = w.can.new('plaintext', 32), w.can.new('iv', 16), w.can.new('salt', 16)
+    reqs = [('register-key', [_register_item(w, key)], key),
+            ('register-secret-data', [kdrv.register(OT.SECRET_DATA, kdrv.secret_for(OT.SECRET_DATA, sd))], sd),
+            ('encrypt', [kdrv.encrypt('1', cparams(**CBC), pt, iv)], pt),
+            ('derive', [kdrv.derive_key(['1'], E.DerivationMethod.PBKDF2, dparams(cryptographic_parameters=cparams(hashing_algorithm=E.HashingAlgorithm.SHA_256),
+                                                                                 salt=salt, iteration_count=10))], salt)]
+    priv, _ = rsa_pair(w)
+    w.can.add('key-material:rsa-private', priv)
+    reqs.append(('register-private-key', [kdrv.register(OT.PRIVATE_KEY, kdrv.core_secret(
+        OT.PRIVATE_KEY, cryptographic_algorithm=ALG.RSA, cryptographic_length=1024, key_format_type=K.PKCS_8, key_value=priv,
+        key_wrapping_data=None), mask=(MASK.SIGN,))], priv))
+    frames = []
+    for name, items, secret in reqs:
+        good = HH.encode_request(w, items, auth=auth)
+        tree = HH.ttlv_parse(good)
+        paths = list(HH.ttlv_paths(tree))
+        # the node that holds the secret, and everything at or after it in document order
+        spos = next((k for k, p in enumerate(paths) if not isinstance(HH.ttlv_get(tree, p)[2], list) and secret[:16] in HH.ttlv_get(tree, p)[2]), 0)
+        anc = [paths[spos][:k] for k in range(1, len(paths[spos]))]
+        targets = anc + paths[spos:]
+        for p in targets:
+            node = HH.ttlv_get(tree, p)
+            for typ in (1, 2, 5, 6, 7, 8, 9, 0x0b):
+                if typ == node[1]:
+                    continue
+                t = copy.deepcopy(tree)
+                n = HH.ttlv_get(t, p)
+                n[1] = typ
+                if isinstance(n[2], list):
+                    n[2] = HH.ttlv_build(n[2])
+                frames.append(('%s: item %06x at %s typed %d' % (name, node[0], p, typ), HH.ttlv_build(t)))
+            t = copy.deepcopy(tree)
+            sib = HH.ttlv_siblings(t, p)
+            del sib[p[-1] + 1:]
+            frames.append(('%s: everything after item %06x at %s dropped' % (name, node[0], p), HH.ttlv_build(t)))
+            t = copy.deepcopy(tree)
+            sib = HH.ttlv_siblings(t, p)
+            sib.insert(p[-1], copy.deepcopy(sib[p[-1]]))
+            frames.append(('%s: item %06x at %s duplicated' % (name, node[0], p), HH.ttlv_build(t)))
+            t = copy.deepcopy(tree)
+            sib = HH.ttlv_siblings(t, p)
+            del sib[p[-1]]
+            frames.append(('%s: item %06x at %s removed' % (name, node[0], p), HH.ttlv_build(t)))
+        if name.startswith('register-key') or name == 'register-private-key':
+            # Structure-typed key material (a transparent key) under each key format type
+            kv = paths[spos]
+            fmt_path = next((p for p in paths if HH.ttlv_get(tree, p)[0] == 0x420042), None)
+            for fmt in (K.RAW, K.OPAQUE, K.PKCS_1, K.PKCS_8, K.X_509, K.TRANSPARENT_SYMMETRIC_KEY, K.TRANSPARENT_RSA_PRIVATE_KEY, K.TRANSPARENT_EC_PRIVATE_KEY):
+                for inner_tag in (0x42003f, 0x420043, 0x420051):      # Key, Key Material, Modulus
+                    t = copy.deepcopy(tree)
+                    n = HH.ttlv_get(t, kv)
+                    n[1] = 1
+                    n[2] = [[inner_tag, 8 if inner_tag != 0x420051 else 4, secret]]
+                    if fmt_path is not None:
+                        HH.ttlv_get(t, fmt_path)[2] = fmt.value.to_bytes(4, 'big')
+                    frames.append(('%s: structure-typed key material {%06x} under %s' % (name, inner_tag, fmt.name), HH.ttlv_build(t)))
+    w.opcount['structured_frames'] += len(frames)
+    # one connection per 25 frames (a failed frame does not end the connection)
+    for k in range(0, len(frames), 25):
+        chunk = frames[k:k + 25]
+        HH.run_session(w, b''.join(f for _, f in chunk), label='structured failures %d-%d: %s ...' % (k, k + len(chunk) - 1, chunk[0][0]))
+    w.trace.append({'step': len(w.trace), 'structured_frames': [n for n, _ in frames][:400]})
+
+
 # ---------------------------------------------------------------------------------------------- pie client
+@atom(layer='client')
+def client_cut_responses(w):
+    """The connection drops inside a canary-carrying response: every cut offset (before / inside / after the 8-byte
+    header, mid-body) for Get of a key, a coarser grid for Get of secret data and for Decrypt."""
+    from kmip.pie import objects as pobj
+    from kmip.services.kmip_protocol import KMIPProtocol
+    pw = w.can.new('password', 20, text=True).decode()
+    cl = HH.make_client(w, username='alice', password=pw)
+    C = HH.client_call
+    key = w.can.new('key-material:client-cut', 32)
+    uid = C(w, 'register', cl.register, pobj.SymmetricKey(ALG.AES, 256, key, masks=list(ALLMASK)))
+    sd = w.can.new('secret-data', 24)
+    sid = C(w, 'register secret', cl.register, pobj.SecretData(sd, E.SecretDataType.PASSWORD))
+    C(w, 'activate', cl.activate, uid)
+    pt, iv = w.can.new('plaintext', 48), w.can.new('iv', 16)
+    cp_ = {'cryptographic_algorithm': ALG.AES, 'block_cipher_mode': E.BlockCipherMode.CBC, 'padding_method': E.PaddingMethod.PKCS5}
+    r = C(w, 'encrypt', cl.encrypt, pt, uid=uid, cryptographic_parameters=cp_, iv_counter_nonce=iv)
+    ct = r[0] if r else pt
+
+    def cut_calls(label, step, fn, *a, **kw):
+        probe = HH.CutLoopback(w, 10 ** 9)
+        cl.proxy.protocol = KMIPProtocol(probe)
+        C(w, label + ' uncut', fn, *a, **kw)
+        total = probe.full
+        for cut in sorted(set(list(range(0, 17)) + list(range(17, total + 1, step)) + [total - 1, total - 8])):
+            if cut < 0:
+                continue
+            cl.proxy.protocol = KMIPProtocol(HH.CutLoopback(w, cut))
+            C(w, '%s cut-at-%d-of-%d' % (label, cut, total), fn, *a, **kw)
+    cut_calls('get-key', 1, cl.get, uid)
+    cut_calls('get-secret', 5, cl.get, sid)
+    cut_calls('decrypt', 5, cl.decrypt, ct, uid=uid, cryptographic_parameters=cp_, iv_counter_nonce=iv)
+    # the same through the lower-level KMIPProxy API
+    from kmip.core.factories import credentials as credf
+    cut_calls('proxy-get', 9, cl.proxy.get, uid)
+
+
+
 @atom(layer='client')
 def client_ops(w):
     from kmip.pie import objects as pobj
@@ -813,6 +926,8 @@ CURATED = [
     ('engine-wrap-register', 'engine', ['setup_keys', 'lifecycle_all_types', 'get_and_wrap', 'register_failures']),
     ('session-auth', 'session', ['setup_keys', 'sess_auth_password', 'sess_slugs']),
     ('session-malformed', 'session', ['setup_keys', 'sess_malformed']),
+    ('session-structured-failures', 'session', ['setup_keys', 'sess_structured_failures']),
     ('client-loopback', 'client', ['client_ops']),
+    ('client-cut-responses', 'client', ['client_cut_responses']),
     ('engine-attributes-requests', 'engine', ['setup_keys', 'lifecycle_all_types', 'attribute_paths', 'request_level', 'restart_and_reuse', 'locate_query', 'monitor_and_config']),
 ]
